@@ -29,7 +29,8 @@ mpz_rrandomb (mpz_ptr x, gmp_randstate_t rstate, mp_bitcnt_t nbits)
 {
   mp_size_t nl;
 
-  nl = (nbits + GMP_NUMB_BITS - 1) / GMP_NUMB_BITS;
+  /* nbits + GMP_NUMB_BITS - 1 would wrap for bit counts near the maximum */
+  nl = nbits / GMP_NUMB_BITS + (nbits % GMP_NUMB_BITS != 0);
   if (nbits != 0)
     {
       MPZ_REALLOC (x, nl);
@@ -57,7 +58,7 @@ gmp_rrandomb (mp_ptr rp, gmp_randstate_t rstate, mp_bitcnt_t nbits)
   mp_size_t i;
 
   /* Set entire result to 111..1  */
-  i = (nbits + GMP_NUMB_BITS - 1) / GMP_NUMB_BITS - 1;
+  i = nbits / GMP_NUMB_BITS + (nbits % GMP_NUMB_BITS != 0) - 1;
   rp[i] = GMP_NUMB_MAX >> (GMP_NUMB_BITS - (nbits % GMP_NUMB_BITS)) % GMP_NUMB_BITS;
   for (i = i - 1; i >= 0; i--)
     rp[i] = GMP_NUMB_MAX;
